@@ -85,7 +85,7 @@ macro_rules! caller {
                 }
             }
             let fut = s.call(req);
-            Some(Box::pin(async move { render(fut.await) }) as CallFut)
+            Some(held(fut, render))
         }) as Box<dyn FnMut(Req) -> Option<CallFut>>
     }};
 }
@@ -96,7 +96,8 @@ impl Adapter {
         let mut b = CircuitBreakerLayer::builder()
             .failure_rate_threshold(frac(kv, "fr", (1, 2)))
             .sliding_window_size(kv.u64("size", 10) as usize)
-            .wait_duration_in_open(Duration::from_millis(kv.u64("wait", 1000)))
+            // `wait=max`: "stay open until a manual reset" — the largest representable duration
+            .wait_duration_in_open(if kv.str("wait", "") == "max" { Duration::MAX } else { Duration::from_millis(kv.u64("wait", 1000)) })
             .permitted_calls_in_half_open(kv.u64("permitted", 1) as usize)
             .on_state_transition(|from, to| log(format!("transition {} {}", st(from), st(to))));
         if kv.str("wtype", "count") == "time" {
